@@ -198,6 +198,29 @@ def body_encoding(ctx, mesh, supply, coords_as_coords, edge_order, two_name='Two
     ctx.check(kinds == {'face', 'node', 'edge'}, 'declared edge dimension gives an edge grid')
 
 
+def body_implied_edges(ctx, mesh, table):
+    """The mesh has edges only because one edge table is stored (no edge_dimension attribute, no edge_node table when
+    `table` is edge_face): there is an edge grid, its size is the number of edges, the stored table is used as given."""
+    from emsarray.conventions.ugrid import Mesh2DTopology, UGrid
+    nodes, faces = builders.MESHES[mesh]
+    start = int(ctx.int('start_index', 0, 1))
+    ds = builders.ugrid(mesh, supply=(table,), edge_dimension_attr=False, fill='nan', start_index=start)
+    ctx.check('edge_dimension' not in ds['mesh'].attrs, 'harness: the edge dimension is implied')
+    topo = Mesh2DTopology(ds)
+    edges_ref, _ = builders.mesh_edges(faces)
+    ctx.check(topo.has_edge_dimension and topo.edge_dimension == 'nedge' and int(topo.edge_count) == len(edges_ref), 'an edge table implies the edge dimension')
+    cv = UGrid(ds)
+    ctx.check({k.value for k in cv.grid_kinds} == {'face', 'node', 'edge'}, 'declared edge dimension gives an edge grid')
+    edge_set, face_edges, edge_faces, adjacency = ref_tables([list(f) for f in faces])
+    if table == 'edge_face':
+        want = [sorted(edge_faces[frozenset(e)]) for e in edges_ref]
+        ctx.check([sorted(r) for r in rows(topo.edge_face_array)] == want, 'a supplied edge-face table is used as given')
+    else:
+        ctx.check(rows(topo.edge_node_array) == [list(e) for e in edges_ref], 'a supplied edge-node table is used as given (order and orientation)')
+    ff = rows(topo.face_face_array)
+    ctx.check({(a, b) for a in range(len(ff)) for b in ff[a]} == adjacency, 'face-face table agrees with the face-node table')
+
+
 def body_big_mesh(ctx):
     """A mesh with more than 46340 nodes (node numbers whose product no longer fits in 32 bits): the derived edge table
     is the set of node pairs of the faces, the derived tables agree with the face-node table."""
@@ -228,6 +251,9 @@ def body_big_mesh(ctx):
 def cases(tier):
     q = tier == 'quick'
     yield Case('topology:big-strip:50000-nodes', body_big_mesh, dict(), max_paths=4)
+    for mesh in ('tqp', 'tq'):
+        for table in ('edge_face', 'edge_node'):
+            yield Case(f'implied-edges:{mesh}:{table}', body_implied_edges, dict(mesh=mesh, table=table), max_paths=4)
     size_sets = [(3, 3), (3, 4), (4, 3)] if q else [(3, 3), (3, 4), (4, 3), (4, 4), (3, 5), (3, 3, 3), (3, 3, 4)]
     for sizes in size_sets:
         for with_edges in (False, True, 'declared'):
